@@ -27,6 +27,7 @@ Section Mono.
     (forall s e, le_res (eval_expr F n s e) (eval_expr F n' s e)) /\
     (forall s es, le_res (eval_args F n s es) (eval_args F n' s es)) /\
     (forall s name vs, le_res (eval_call F n s name vs) (eval_call F n' s name vs)) /\
+    (forall s fd vs, le_res (eval_fun F n s fd vs) (eval_fun F n' s fd vs)) /\
     (forall s ls, le_res (eval_locals F n s ls) (eval_locals F n' s ls)) /\
     (forall s ss, le_res (eval_block F n s ss) (eval_block F n' s ss)) /\
     (forall s st, le_res (eval_stmt F n s st) (eval_stmt F n' s st)) /\
@@ -46,6 +47,8 @@ Section Mono.
       |- le_res (eval_args F ?n _ _) (eval_args F ?n' _ _) => apply H
     | H : forall s name vs, le_res (eval_call F ?n s name vs) (eval_call F ?n' s name vs)
       |- le_res (eval_call F ?n _ _ _) (eval_call F ?n' _ _ _) => apply H
+    | H : forall s fd vs, le_res (eval_fun F ?n s fd vs) (eval_fun F ?n' s fd vs)
+      |- le_res (eval_fun F ?n _ _ _) (eval_fun F ?n' _ _ _) => apply H
     | H : forall s ls, le_res (eval_locals F ?n s ls) (eval_locals F ?n' s ls)
       |- le_res (eval_locals F ?n _ _) (eval_locals F ?n' _ _) => apply H
     | H : forall s ss, le_res (eval_block F ?n s ss) (eval_block F ?n' s ss)
@@ -74,10 +77,11 @@ Section Mono.
     - unfold mono_at; repeat split; intros; left; reflexivity.
     - destruct n' as [| n']; [lia |].
       assert (Hle' : n <= n') by lia.
-      destruct (IH n' Hle') as (He & Ha & Hc & Hl & Hb & Hs & Hw & Hf & Hfi).
+      destruct (IH n' Hle') as (He & Ha & Hc & Hfn & Hl & Hb & Hs & Hw & Hf & Hfi).
       unfold mono_at; repeat split; intros.
       + destruct e; simpl; mono.
       + destruct es; simpl; mono.
+      + simpl. mono.
       + simpl. mono.
       + destruct ls as [| [t e] ls]; simpl; mono.
       + destruct ss; simpl; mono.
@@ -92,7 +96,7 @@ Section Mono.
   Proof.
     intros n n' p; induction p as [| it p IH]; intros s out st Hle H; simpl in *.
     - exact H.
-    - destruct (mono_all n n' Hle) as (He & _ & _ & _ & _ & Hs & _ & _ & _).
+    - destruct (mono_all n n' Hle) as (He & _ & _ & _ & _ & _ & Hs & _ & _ & _).
       destruct it.
       + destruct (He (with_frame s []) e) as [Hf | Hf]; rewrite Hf in H; [discriminate |].
         destruct (eval_expr F n' (with_frame s []) e); try discriminate; [eapply IH; eauto | exact H].
